@@ -222,33 +222,43 @@ pub fn check_dump(rec: &SessionRec, sh_after: &Shadow) -> Vec<Finding> {
     }
   }
   if rec.aborted.is_none() {
-    let wrote_now = |t: u32, r: u32| rec.events.iter().any(|e| matches!(e, Ev::WriteRet { task, res, err: None } if *task == t && *res == r));
-    let read_now = |t: u32, r: u32| rec.events.iter().any(|e| matches!(e, Ev::ReadRet { task, res, reader: Some(_), .. } if *task == t && *res == r));
     for (r, dr) in &rec.dump.res {
       let writers: Vec<u32> = dr.incoming.iter().filter(|x| x.1 == DKind::Write).map(|x| x.0).collect();
       if writers.len() > 1 { out.push(f("C06", "two-writers-after-build", at, format!("after a build that returned, R{} has writers {:?}", r, writers))); }
-      if let Some(w) = writers.first() {
-        for (x, k) in &dr.incoming {
-          // only completed tasks are readers in any meaningful sense (leftovers of aborted executions hold no result)
-          if *k == DKind::Read && x != w && sh_after.tasks[*x as usize].status == Status::Completed && sh_after.tasks[*w as usize].status == Status::Completed && !dump_reaches(&rec.dump, *x, *w) {
-            // Was the later of the two accesses legal when it happened? If it happened in this session, replay the
-            // live shadow up to that event; if both are older, earlier sessions' monitors have already judged them.
-            let later = rec.events.iter().rposition(|e| matches!(e, Ev::WriteRet { task, res, err: None } if task == w && res == r) || matches!(e, Ev::ReadRet { task, res, reader: Some(_), .. } if task == x && res == r));
-            let legal_then = match later {
-              None => true,
-              Some(i) => { let mut sh = rec.shadow_before.clone(); for e in &rec.events[..i] { sh.apply(e); } sh.reaches(*x, *w) }
-            };
-            let _ = (wrote_now(*w, *r), read_now(*x, *r));
-            if legal_then {
-              // A path existed when the second access happened; it went through a task that has since re-executed and
-              // dropped its require (finding K4).
-              let fd = f("C05", "K4-legality-path-removed-later", at, format!("after a build that returned, T{} reads R{} written by T{} without (transitively) requiring it: the path that made this legal when the second of the two accesses happened went through a task that has been re-executed since and no longer requires the writer's side", x, r, w));
-              out.push(fd);
-            } else {
-              out.push(f("C05", "reader-without-path-after-build", at, format!("after a build that returned, T{} reads R{} written by T{} without (transitively) requiring it", x, r, w)));
-            }
-          }
-        }
+    }
+    for (x, r, w, legal_then) in unrelated_reader_writer_pairs(rec, sh_after) {
+      if legal_then {
+        // A path existed when the second access happened; it went through a task that has since re-executed and
+        // dropped its require (finding K4).
+        out.push(f("C05", "K4-legality-path-removed-later", at, format!("after a build that returned, T{} reads R{} written by T{} without (transitively) requiring it: the path that made this legal when the second of the two accesses happened went through a task that has been re-executed since and no longer requires the writer's side", x, r, w)));
+      } else {
+        out.push(f("C05", "reader-without-path-after-build", at, format!("after a build that returned, T{} reads R{} written by T{} without (transitively) requiring it", x, r, w)));
+      }
+    }
+  }
+  out
+}
+
+/// Completed readers of a resource that do not (transitively) require its completed writer, according to the store
+/// dump taken after the session: (reader, resource, writer, was the later of the two accesses legal when it happened).
+/// Computed whether or not the session aborted (the second oracle uses it to recognise finding K4).
+pub fn unrelated_reader_writer_pairs(rec: &SessionRec, sh_after: &Shadow) -> Vec<(u32, u32, u32, bool)> {
+  let mut out = Vec::new();
+  if !rec.dump.problems.is_empty() { return out; }
+  for (r, dr) in &rec.dump.res {
+    let writers: Vec<u32> = dr.incoming.iter().filter(|x| x.1 == DKind::Write).map(|x| x.0).collect();
+    let Some(w) = writers.first() else { continue; };
+    for (x, k) in &dr.incoming {
+      // only completed tasks are readers in any meaningful sense (leftovers of aborted executions hold no result)
+      if *k == DKind::Read && x != w && sh_after.tasks[*x as usize].status == Status::Completed && sh_after.tasks[*w as usize].status == Status::Completed && !dump_reaches(&rec.dump, *x, *w) {
+        // Was the later of the two accesses legal when it happened? If it happened in this session, replay the live
+        // shadow up to that event; if both are older, earlier sessions' monitors have already judged them.
+        let later = rec.events.iter().rposition(|e| matches!(e, Ev::WriteRet { task, res, err: None } if task == w && res == r) || matches!(e, Ev::ReadRet { task, res, reader: Some(_), .. } if task == x && res == r));
+        let legal_then = match later {
+          None => true,
+          Some(i) => { let mut sh = rec.shadow_before.clone(); for e in &rec.events[..i] { sh.apply(e); } sh.reaches(*x, *w) }
+        };
+        out.push((*x, *r, *w, legal_then));
       }
     }
   }
